@@ -2256,7 +2256,7 @@ pub fn run_c15(args: &Args, model: &mut Model) -> Report {
     for (i, w) in c15_corpus().iter().enumerate() {
         c15_run_world(w, model, &mut rep, &format!("corpus {}", i), &mut ids_seen);
     }
-    let nworlds = if args.thorough { 700 } else { 60 };
+    let nworlds = if args.thorough { 450 } else { 60 };
     for i in 0..nworlds {
         let mut p = Prng::for_case(args.seed, i);
         let w = gen_world(&mut p);
